@@ -693,7 +693,17 @@ func checkEmptyListRejected(p *core.Program, r *core.Report, c *wlCtor) {
 			r.Check(failsClosed(errBlock, map[*ssa.BasicBlock]bool{}), "R10.4", name, "empty input returns a non-nil error", p.InstrPos(iff), "the len(list)==0 edge must end in return nil, err")
 			allDom := true
 			for _, ret := range core.Returns(fn) {
-				if !core.IsNilConst(ret.Results[0]) && !(len(okBlock.Preds) == 1 && okBlock.Dominates(ret.Block())) {
+				if core.IsNilConst(ret.Results[0]) || (len(okBlock.Preds) == 1 && okBlock.Dominates(ret.Block())) {
+					continue
+				}
+				// not dominated (the test sits in an expanded validation helper): known through the merged error instead
+				known := false
+				for _, g := range core.Guards(ret.Block()) {
+					if v, nonEmpty, ok := core.EmptinessTest(g); ok && nonEmpty && v == ssa.Value(c.param) {
+						known = true
+					}
+				}
+				if !known {
 					allDom = false
 				}
 			}
